@@ -307,13 +307,22 @@ def gen_count(rng, n_trees):
     for ti in range(n_trees):
         t = rand_tree(rng, depth=rng.randint(1, 4), max_deg=3, open_prob=0.0)
         labels = sorted({s.value for _, s in t.paths()})
-        needles = rng.sample(labels, min(3, len(labels))) + [rng.choice(["<zz>", "q", ""])]
+        needles = [t.value] + [l for l in rng.sample(labels, min(3, len(labels))) if l != t.value] \
+            + [rng.choice(["<zz>", "q", ""])]          # the ROOT label is always one of the needles
         for needle in needles:
             n = sum(1 for _, s in t.paths() if s.value == needle)
             nums = [VAR, str(n), str(n + 1), str(max(n - 1, 0)), "0" + str(n), " %d " % n, "+%d" % n, "-%d" % n,
                     T(str(n), None), T(str(n), ()), T(str(n + 1), None), T("x", ()), T(str(n), [T("y", ())]),
                     n, rng.choice(NUM_STRS), rng.choice(NUM_STRS), T(rng.choice(NUM_STRS), None)]
             for num in nums:
+                yield ("count", [t, needle, num], len(t.paths()) >= 2)
+    # trees of the harness grammar whose ROOT is the needle nonterminal (recursive <a> -> <b> -> <c> -> <a>)
+    for nt, src in [("<a>", "y"), ("<a>", "zx"), ("<a>", "yxx"), ("<b>", "yx"), ("<c>", "zxx"),
+                    ("<octal_digits>", "170"), ("<chars>", "ab")]:
+        t = parse(nt, src)
+        for needle in [nt, "<a>", "<c>", "x", "<octal_digit>", "<start>"]:
+            n = sum(1 for _, s_ in t.paths() if s_.value == needle)
+            for num in [VAR, str(n), str(n + 1), "0", T(str(n), None), T(str(max(n - 1, 0)), ())]:
                 yield ("count", [t, needle, num], len(t.paths()) >= 2)
     yield ("count", [VAR, "<a>", "1"], False)
 
@@ -364,6 +373,10 @@ def gen_just(rng, pool, thorough):
                 combos = [(rng.choice(kinds), rng.choice(fills[:4])), (rng.choice(kinds), rng.choice(fills))]
             for kind, f in combos:
                 yield (kind, [t, w, f], nt_)
+        for w in (0, 1, T("0", ()), T("1", ())):          # always: crop variants at width 0 and 1
+            for kind in ("ljust_crop", "rjust_crop"):
+                for f in ("0", "a"):
+                    yield (kind, [t, w, f], nontriv and width_value(w) != n)
         o = prune(t, rng)
         for kind in ("crop", "extend_crop"):
             yield (kind, [o, 3], False)
@@ -386,6 +399,31 @@ def gen_octal(rng, thorough):
              parse("<signed>", "-5"), parse("<signed>", "+17"), T("17", ()), T("", ()), parse("<chars>", "a0")]
     odd_d = [parse("<signed>", "-5"), parse("<signed>", "+15"), parse("<signed>", " 15"), T("15", ()), T("", ()),
              parse("<chars>", "ab"), parse("<file_size>", "15 ")]
+    # LONG digit strings (23..40 digits, beyond any 64-bit / fixed-size table), with leading-zero variants,
+    # in all three modes; the model computes in unbounded N / Z
+    long_o = ["1" + "0" * 22, "7" * 23, "1" + "0" * 39, "0" * 4 + "1" + "0" * 22]
+    long_d = ["1" + "0" * 22, "9" * 23, "1" + "0" * 39, "000" + "9" * 24]
+    for _ in range(6 if thorough else 3):
+        k = rng.randint(23, 40)
+        so = rng.choice("1234567") + "".join(rng.choice("01234567") for _ in range(k - 1))
+        long_o += [so, "0" * rng.randint(1, 3) + so]
+        k = rng.randint(23, 40)
+        sd = rng.choice("123456789") + "".join(rng.choice(string.digits) for _ in range(k - 1))
+        long_d += [sd, "0" * rng.randint(1, 3) + sd]
+    lot = [parse("<octal_digits>", s_) for s_ in long_o]
+    ldt = [parse("<decimal_digits>", s_) for s_ in long_d]
+    for o, so in zip(lot, long_o):
+        yield ("octal", [o, VAR], True)                                        # concrete octal
+        yield ("octal", [o, T("<decimal_digits>", None)], True)
+        n = int(so, 8)
+        for sd in (str(n), "00" + str(n), str(n + 1), str(n % 8 ** 22), long_d[0]):
+            yield ("octal", [o, parse("<decimal_digits>", sd)], True)          # both trees
+    for d, sd in zip(ldt, long_d):
+        yield ("octal", [VAR, d], True)                                        # concrete decimal
+        yield ("octal", [T("<octal_digits>", None), d], True)
+        n = int(sd)
+        for so in (oct(n)[2:], "00" + oct(n)[2:], oct(n + 8 ** 22)[2:], oct(n)[2:][-22:].lstrip("0") or "0"):
+            yield ("octal", [parse("<octal_digits>", so), d], True)            # both trees
     for o in ot + odd_o:
         yield ("octal", [o, VAR], True)
         yield ("octal", [o, T("<decimal_digits>", None)], True)
@@ -466,8 +504,10 @@ def run(run):
                        "obligation": "harness/c20.py LANGS <-> isla.parser.EarleyParser"}, found_input=False)
 
     # which both-trees behaviour does the implementation show on the recorded witness?
-    pinned = defect_both_present()
-    run.cov["octal_both_trees_variant"] = "pinned (defect present)" if pinned else "fixed"
+    # /repo contains the fix c0b7afd (finding octal-both-trees: fixed): the REPAIRED model is forced, so a
+    # regression of the both-trees branch is a disagreement + spec failure and is reported as VIOLATION
+    pinned = False
+    run.cov["octal_both_trees_variant"] = "fixed (forced; repaired by c0b7afd)"
 
     calls = list(gen_count(rng, 60 if thorough else 12))
     pool = tree_pool(rng, thorough)
